@@ -541,6 +541,18 @@ class C10Engine:
         elif k == "glitch":
             if op[1] not in m or m[op[1]]["kind"] != "column":
                 return "not a column"
+        elif k == "expr_text":
+            h = op[1]
+            if h not in m:
+                return "unknown handle"
+            if m[h]["kind"] == "column":
+                if not isinstance(m[h]["default"], list):
+                    return "no expression default"
+            elif m[h]["kind"] == "index":
+                if op[3] >= len(m[h]["subjects"]) or m[h]["subjects"][op[3]][0] != "expr":
+                    return "no expression subject"
+            else:
+                return "wrong kind"
         elif k == "readd":
             h = op[1]
             if h not in m or m[h]["kind"] not in ("table", "ref") or m[h].get("db") is not None:
@@ -723,6 +735,15 @@ class C10Engine:
             m[c]["table"] = t2
             real[t1].delete_column(real[c])
             real[t2].add_column(real[c])
+        elif k == "expr_text":
+            # the Expression object itself is edited in place (expr.text = ...), not replaced
+            _, h, text, pos = op
+            if m[h]["kind"] == "column":
+                m[h]["default"] = ["expr", text]
+                real[h].default.text = text
+            else:
+                m[h]["subjects"][pos] = ["expr", text]
+                real[h].subjects[pos].text = text
         elif k == "readd":
             h = op[1]
             lst = "tables" if m[h]["kind"] == "table" else "refs"
@@ -933,6 +954,11 @@ def draw_op(rng: random.Random, eng: C10Engine) -> List[Any]:
         if rr < 0.12:
             cols = [c for t in tables for c in m[t]["cols"]]
             return ["glitch", rng.choice(cols), rng.choice(["type", "name"])]
+        exprs = [(c, 0) for t in tables for c in m[t]["cols"] if isinstance(m[c]["default"], list)] + \
+                [(i, k) for t in tables for i in m[t]["idxs"] for k, sb in enumerate(m[i]["subjects"]) if sb[0] == "expr"]
+        if exprs and rr < 0.16:
+            h, pos = rng.choice(exprs)
+            return ["expr_text", h, rng.choice(["now()", "upper(name)", "id*3"]), pos]
         gone = [h for h, dd in m.items() if dd["kind"] in ("table", "ref") and dd.get("db") is None and "col1" in dd or
                 dd["kind"] == "table" and dd.get("db") is None]
         if gone and rr < 0.17:
